@@ -26,6 +26,8 @@ val mul : nat -> nat -> nat
 
 val sub : nat -> nat -> nat
 
+val eqb : bool -> bool -> bool
+
 module Nat :
  sig
   val eqb : nat -> nat -> bool
@@ -36,6 +38,8 @@ module Nat :
 
   val max : nat -> nat -> nat
  end
+
+val hd : 'a1 -> 'a1 list -> 'a1
 
 val nth : nat -> 'a1 list -> 'a1 -> 'a1
 
@@ -52,6 +56,8 @@ val fold_left : ('a1 -> 'a2 -> 'a1) -> 'a2 list -> 'a1 -> 'a1
 val fold_right : ('a2 -> 'a1 -> 'a1) -> 'a1 -> 'a2 list -> 'a1
 
 val existsb : ('a1 -> bool) -> 'a1 list -> bool
+
+val forallb : ('a1 -> bool) -> 'a1 list -> bool
 
 val filter : ('a1 -> bool) -> 'a1 list -> 'a1 list
 
@@ -973,3 +979,111 @@ val marshal_json : n -> n -> n list
 val parse_num : n list -> n option -> n option * n list
 
 val unmarshal_json : n list -> (n * n) option
+
+val row_ent : table -> nat -> ent
+
+val loc : w -> ent -> (nat * nat) option
+
+val live : w -> ent -> bool
+
+val r2_nodupb : nat list -> bool
+
+val r2_alli : (nat -> 'a1 -> bool) -> nat -> 'a1 list -> bool
+
+val r2_exi : (nat -> 'a1 -> bool) -> nat -> 'a1 list -> bool
+
+val r2_ents_eqb : ent list -> ent list -> bool
+
+val r2_is_some_true : bool option -> bool
+
+val r2_c_nodup : w -> bool
+
+val r2_c_active : w -> bool
+
+val r2_c_freed : w -> bool
+
+val r2_c_listed : w -> bool
+
+val r2_c_norel : w -> bool
+
+val r2_shape_b : arch -> table -> bool
+
+val r2_c_shape : w -> bool
+
+val r2_c_unique : w -> bool
+
+val r2_c_reltabs : w -> bool
+
+val r2_c_reltabs_complete : w -> bool
+
+val r2_has_target_b : arch -> table -> nat -> bool
+
+val r2_c_tgttabs : w -> bool
+
+val r2_c_tgttabs_complete : w -> bool
+
+val r2_c_keys : w -> bool
+
+val r2_c_relarchs : w -> bool
+
+val r2_c_istarget : w -> bool
+
+val r2_c_targets_ok : w -> bool
+
+val rel_inv_checks : w -> bool list
+
+val r2_cache_member_b : w -> fobj -> rel list -> table -> bool
+
+val r2_c_entry : w -> centry -> fobj -> bool
+
+val cache_inv_b : w -> bool
+
+val r2_ckind_eqb : ckind -> ckind -> bool
+
+val r2_list_eqb : ('a1 -> 'a1 -> bool) -> 'a1 list -> 'a1 list -> bool
+
+val r2_tbl_ok_b : table -> bool
+
+val r2_w_tables : w -> bool
+
+val r2_w_layout : w -> bool
+
+val r2_w_arch_comps : w -> bool
+
+val r2_w_arch_unique : w -> bool
+
+val r2_tab_of_arch : w -> nat -> nat -> bool
+
+val r2_w_arch_tables : w -> bool
+
+val r2_w_norel_table : w -> bool
+
+val r2_w_arch0 : w -> bool
+
+val r2_w_index_lists : w -> bool
+
+val r2_w_index_len : w -> bool
+
+val r2_loc_eqb : (nat * nat) option -> nat -> nat -> bool
+
+val r2_w_rows : w -> bool
+
+val r2_w_index : w -> bool
+
+val r2_free_list : ent list -> nat -> nat -> nat list
+
+val r2_w_pool : w -> bool
+
+val r2_w_reserved : w -> bool
+
+val r2_w_small : w -> bool
+
+val r2_w_cache : w -> bool
+
+val wf_checks : w -> bool list
+
+val inv_failing : nat -> bool list -> z list
+
+val inv_lines : bool -> w -> z list list -> z list list
+
+val inv_script : z list list -> z list list
